@@ -18,6 +18,7 @@ import (
 	"log"
 	"net"
 	"net/http"
+	"sort"
 	"strconv"
 	"strings"
 	"sync"
@@ -69,6 +70,13 @@ func resp(status string, headers []string, body string) string {
 
 func full(status string, body string, extra ...string) string {
 	h := append([]string{"Content-Length: " + strconv.Itoa(len(body)), "X-Tok: abcdef", "Content-Type: text/plain"}, extra...)
+	hasN := false
+	for _, e := range extra {
+		hasN = hasN || strings.HasPrefix(e, "X-N:")
+	}
+	if !hasN {
+		h = append(h, "X-N: 5")
+	}
 	return resp(status, h, body)
 }
 
@@ -302,8 +310,24 @@ func behaviours() []behaviour {
 			return true
 		}},
 	}
+	// a number in a header that a later step hands to randString / randInt
+	var nn []string
+	for name := range hostileNumbers {
+		nn = append(nn, name)
+	}
+	sort.Strings(nn)
+	for _, name := range nn {
+		v := hostileNumbers[name]
+		bs = append(bs, behaviour{Name: "n-" + name, Status: 200, Exp: expStatus, act: func(c net.Conn, variant string) bool {
+			w(c, full("200 OK", goodBody(variant), "X-N: "+v))
+			return true
+		}})
+	}
 	return bs
 }
+
+var hostileNumbers = map[string]string{"zero": "0", "neg": "-1", "word": "abc", "empty": "", "float": "1e9", "over": "99999999999999999999",
+	"maxint": "9223372036854775807", "minint": "-9223372036854775808", "big": "3000000000", "mega": "1000000", "spaces": " 7 "}
 
 type peer struct {
 	rt    *vkit.RawTarget
@@ -495,6 +519,9 @@ var variants = map[string]string{
         status_code: 200
         size: {val: 5, op: ">"}
 `,
+	"funcs": `      - type: "var/header"
+        mapping: {"n": "X-N"}
+`,
 	"all": `      - type: "var/header"
         mapping: {"h2": "X-Tok|substr(1,3)"}
       - type: "var/jsonpath"
@@ -506,6 +533,7 @@ var variants = map[string]string{
 }
 
 var usePost = map[string]string{"header": "{{.request.probe.postprocessor.h2}}", "jsonpath": "{{.request.probe.postprocessor.tok}}",
+	"funcs": `{{randString .request.probe.postprocessor.n \"ab\"}}-{{randInt .request.probe.postprocessor.n}}-{{randInt .request.probe.postprocessor.n 5}}-{{randInt 5 .request.probe.postprocessor.n}}`,
 	"xpath": "x", "assert": "x", "all": "{{.request.probe.postprocessor.tok}}{{.request.probe.postprocessor.h2}}"}
 
 func scenarioCase(res *vkit.Result, p *peer, c Case) {
@@ -1155,6 +1183,9 @@ func main() {
 		cases = append(cases, Case{Gun: "connect", Behaviour: nm, Instances: 2, Rounds: 2})
 		for _, v := range []string{"header", "jsonpath", "xpath", "assert", "all"} {
 			cases = append(cases, Case{Gun: "http/scenario", Variant: v, Behaviour: nm, Instances: 2, Rounds: 3})
+		}
+		if strings.HasPrefix(nm, "n-") || nm == "good" || nm == "header-x-tok-missing" {
+			cases = append(cases, Case{Gun: "http/scenario", Variant: "funcs", Behaviour: nm, Instances: 2, Rounds: 3})
 		}
 		if vkit.Thorough() {
 			cases = append(cases, Case{Gun: "http", Behaviour: nm, Instances: 8, Rounds: 8})
